@@ -77,7 +77,14 @@ plain_st = st.tuples(st.sampled_from(["text", "zero", "period", "random"]), st.o
 
 # ------------------------------------------------------------------------------------------------ file synthesis
 def build_lzma(spec, S):
-    if spec["base"] == "xz":
+    if spec["base"] == "xz" and spec.get("align"):
+        # aimed: the compressed stream is made exactly k * 8192 bytes long (xz's I/O buffer size) by adjusting the length of an
+        # incompressible plaintext, so that the stream ends exactly where a full read() ends - what follows it (trailing bytes or
+        # nothing) has to be fetched by a further read
+        o = spec["opts"]
+        data, plain = aligned_lzma(o, spec["align"], spec["plain"][2], S)
+        data = bytearray(data)
+    elif spec["base"] == "xz":
         o = spec["opts"]
         key = ("lzma", json.dumps(spec["plain"]), json.dumps(o))
         if key not in _cache:
@@ -104,6 +111,37 @@ def build_lzma(spec, S):
     if spec.get("trunc") is not None:
         data = data[:spec["trunc"] % (len(data) + 1)]
     return bytes(data)
+
+
+def aligned_lzma(o, k, seed, S):
+    key = ("aligned", k, seed, json.dumps(o))
+    if key in _cache:
+        return _cache[key]
+    target = 8192 * k
+    arg = "--lzma1=preset=0,lc=%d,lp=%d,pb=%d,dict=%d" % (o["lc"], o["lp"], o["pb"], o["dict"])
+
+    def comp(n):
+        plain = plain_bytes(("random", n, seed))
+        rc, out, err = base.run_cmd([base.tool("xz"), "--format=lzma", arg, "-c"], stdin=plain, env=base.clean_env())
+        if rc != 0:
+            raise RuntimeError("xz --format=lzma failed: %r" % err[-300:])
+        return out, plain
+    n = target - 40
+    best = None
+    for _ in range(40):
+        out, plain = comp(max(n, 1))
+        if len(out) == target:
+            best = (out, plain)
+            break
+        step = target - len(out)
+        n += step if abs(step) > 1 else (1 if step > 0 else -1)
+    if best is None:
+        S.count("aligned-lzma:not-reached")
+        best = comp(target - 40)
+    else:
+        S.count("aligned-lzma:stream-ends-at-a-multiple-of-8192")
+    _cache[key] = best
+    return best
 
 
 def lz_member(m):
@@ -195,6 +233,11 @@ def lzma_file(draw):
     if draw(st.integers(0, 3)) == 0:
         spec["trail"] = draw(st.binary(min_size=1, max_size=6)).hex()
     spec["trunc"] = draw(trunc_st)
+    if base_kind == "xz" and draw(st.integers(0, 9)) == 0:
+        spec["align"] = draw(st.sampled_from([1, 1, 2]))
+        spec["edit"] = {}                       # an untouched header: the interesting part is what follows the stream
+        spec["trail"] = draw(st.sampled_from(["", "00", "01", "5d000010", "fd377a585a00", "ffffffffffff"]))
+        spec["trunc"] = None
     return spec
 
 
